@@ -456,9 +456,16 @@ func Config(c absd.Cfg, l Layout, rng *rand.Rand) (yaml string, cli []string) {
 			// the short package name as default_package_name, resolved to the import path by import_path_overrides
 			short := l.StructImport[strings.LastIndex(l.StructImport, "/")+1:]
 			twoStr("default_package_name", "default_package_name", short)
-			add("import_path_overrides", "import_path_overrides:\n  "+yq(short)+": "+yq(l.StructImport)+"\n")
+			extra := ""
+			if c.ExtraOverride {
+				extra = "  " + yq(l.DepImportBase) + ": " + yq(l.DepImportBase+"/moved") + "\n"
+			}
+			add("import_path_overrides", "import_path_overrides:\n  "+yq(short)+": "+yq(l.StructImport)+"\n"+extra)
 		} else {
 			twoStr("default_package_name", "default_package_name", l.StructImport)
+			if c.ExtraOverride {
+				add("import_path_overrides", "import_path_overrides:\n  "+yq(l.DepImportBase)+": "+yq(l.DepImportBase+"/moved")+"\n")
+			}
 		}
 		twoStr("target_package_name", "target_package_name", l.TargetPkg)
 	}
